@@ -586,6 +586,12 @@ class Desugar(ast.NodeTransformer):
             return ast.copy_location(ast.Compare(left=node.args[0], ops=[_ops[fn.split(".", 1)[1]]()], comparators=[node.args[1]]), node)
         if fn in OPERATOR_NAMES and OPERATOR_NAMES[fn] in _ops and len(node.args) == 2 and not node.keywords and not any(isinstance(a, ast.Starred) for a in node.args):
             return ast.copy_location(ast.Compare(left=node.args[0], ops=[_ops[OPERATOR_NAMES[fn]]()], comparators=[node.args[1]]), node)
+        # operator.getitem(a, k) -> a[k]      operator.contains(a, x) -> x in a      (two plain positional arguments)
+        _on = fn.split(".", 1)[1] if fn.startswith("operator.") else OPERATOR_NAMES.get(fn)
+        if _on in ("getitem", "contains") and len(node.args) == 2 and not node.keywords and not any(isinstance(a, ast.Starred) for a in node.args):
+            if _on == "getitem":
+                return ast.copy_location(ast.Subscript(value=node.args[0], slice=node.args[1], ctx=ast.Load()), node)
+            return ast.copy_location(ast.Compare(left=node.args[1], ops=[ast.In()], comparators=[node.args[0]]), node)
         if fn == "filter" and len(node.args) == 2 and isinstance(node.args[0], ast.Lambda) and len(node.args[0].args.args) == 1 and not node.args[0].args.defaults:
             lam, xs = node.args
             v = lam.args.args[0].arg
